@@ -41,7 +41,8 @@ def r1(c):
     if len(pn) < 4:
         raise AnchorError("make_diff signature changed")
     lst = pn[3]
-    loops = [st for st in walk_no_nested(fn) if isinstance(st, ast.For) and isinstance(st.iter, ast.Name) and st.iter.id == lst]
+    pv0 = Provenance(fn)
+    loops = [st for st in walk_no_nested(fn) if isinstance(st, ast.For) and pv0.iteration_bases(st.iter)[0] == {lst}]
     if len(loops) != 1 or not isinstance(loops[0].target, ast.Name):
         c.violated("C02.R1", repo.loc(m, fn), "make_diff/acl-loop", f"no single loop over `{lst}`: some ACLs of the list are not applied", key_text="no-loop")
         return
@@ -59,6 +60,15 @@ def r1(c):
     env = G.GuardEnv()
     f = gm.formula(call, env)
     none_atom = G.Atom(f"{var} is None")
+    # a filter on the iterable (filter(lambda r: r is not None, ...), a comprehension `if`) is part of the guard
+    for flt in pv0.iteration_bases(loop.iter)[1]:
+        if isinstance(flt, ast.Lambda) and flt.args.args:
+            from sa import symexec
+            f = G.And(f, G.formula(symexec.subst(flt.body, {flt.args.args[0].arg: ast.Name(id=var, ctx=ast.Load())}), env))
+        elif isinstance(flt, ast.Constant) and flt.value is None:
+            f = G.And(f, G.Atom(var))
+        else:
+            f = G.And(f, G.Atom("filter:" + norm(flt)[:40]))
     ok = G.equivalent(f, G.Not(none_atom)) or G.equivalent(f, G.Atom(var)) or f == G.T
     c.check("C02.R1", ok, repo.loc(m, call), "make_diff/apply_acl_diff/guard", f"apply_acl_diff runs only under {G.show(f)}; expected: for every non-None ACL",
             key_text="guard")
@@ -217,6 +227,19 @@ def r4(c):
                 arg = Provenance(fn).resolve_alias(arg)
             at = repo.loc(m, call)
             if kind is None:
+                # a helper of a confirmed call site: its body is analysed where the canonicaliser inlined it (all of its callers are confirmed sites of this module)
+                callers = set()
+                for q2, f2 in m.defs.items():
+                    if isinstance(f2, ast.FunctionDef) and f2 is not m.defs.get(q):
+                        for x2 in calls_in(f2):
+                            r2 = repo.resolve_call(m, x2)
+                            if r2 and r2[2] is m.defs.get(q):
+                                callers.add((m.name, q2))
+                inlined = bool(callers) and all(k in table for k in callers) and all(
+                    not any(call_name(x3).split(".")[-1] == q.split(".")[-1] for x3 in calls_in(repo.func(k[0], k[1]))) for k in callers)
+                if inlined:
+                    n -= 1
+                    continue
                 c.notes.append(f"UNCLASSIFIED make_diff call site {m.name}:{q} at {at} (ACL list: {norm(arg) if arg is not None else '?'})")
                 c.undecided("C02.R4", at, f"{m.name}:{q}", "make_diff call site not in the confirmed table (new fact to read)")
                 continue
